@@ -302,30 +302,35 @@ func (b Branch) CopyEmpty() *Branch {
 	}
 }
 
+// IntersectHash returns the hash of the last header that the chains ending at the tips of the two
+// branches have in common. The branches don't have to be an ancestor of each other.
 func (b *Branch) IntersectHash(other *Branch) *bitcoin.Hash32 {
+	// Walk up the ancestors of b. For each of them the chain of b contains its headers up to
+	// "height", which has the hash "hash".
 	current := b
-	for {
-		if current.parent == nil {
-			break
+	height := b.Height()
+	hash := &b.Last().Hash
+	for current != nil {
+		// Walk up the ancestors of other looking for the same branch.
+		otherCurrent := other
+		otherHeight := other.Height()
+		otherHash := &other.Last().Hash
+		for otherCurrent != nil {
+			if otherCurrent == current {
+				// Both chains go through this branch. They split at the lower of the two heights.
+				if otherHeight < height {
+					return otherHash
+				}
+				return hash
+			}
+
+			otherHeight = otherCurrent.parentHeight
+			otherHash = &otherCurrent.firstHeader.PrevBlock
+			otherCurrent = otherCurrent.parent
 		}
 
-		if current.parent == other {
-			return &current.firstHeader.PrevBlock
-		}
-
-		current = current.parent
-	}
-
-	current = other
-	for {
-		if current.parent == nil {
-			break
-		}
-
-		if current.parent == b {
-			return &current.firstHeader.PrevBlock
-		}
-
+		height = current.parentHeight
+		hash = &current.firstHeader.PrevBlock
 		current = current.parent
 	}
 
